@@ -131,4 +131,21 @@ PROPS = {
                  thorough=dict(checks=8000, shards=16, budget_s=3300, shrink="3m")),
         ],
     ),
+    "C11": dict(
+        level="exploration",
+        text="Model-based exploration: a real node with a generated backend policy faces scripted sessions that perform generated handshakes and later updates (identity, cost, "
+             "forwarder, de-listing, session end, racing twins); an independent admission predicate and cost function decide what must be connected, and Connections, costs, the node's "
+             "own adjacency, leftover routes and reject/close behaviour are compared after every step. A second part starts a later node with a reused ID on a real chain.",
+        note="Trusted: the reference admission predicate; in-memory ordered links. Goroutine-level races between sessions are sampled (the harness releases both twin handshakes at once).",
+        technique="model-based property testing (rapid): generated session scripts against a reference admission predicate; real-mesh scenario for duplicate IDs",
+        assumptions=["the later twin starts >= 1.2 s after the earlier node (epoch granularity, as the property states)"],
+        parts=[
+            part("admission", "netprops", "TestC11", "C11",
+                 quick=dict(checks=200, shards=8, budget_s=300),
+                 thorough=dict(checks=6000, shards=16, budget_s=3000, shrink="2m")),
+            part("twin", "netprops", "TestC11Twin", "C11.twin",
+                 quick=dict(checks=8, shards=4, budget_s=300),
+                 thorough=dict(checks=96, shards=8, budget_s=2400, shrink="2m")),
+        ],
+    ),
 }
